@@ -252,6 +252,7 @@ FULL = [
     ("real(8) :: v", "real(kind=8)"), ("real*8 v", "real(kind=8)"), ("real(kind=8) :: v", "real(kind=8)"), ("REAL ( KIND = 8 ) :: V", "real(kind=8)"),
     ("real(dp), intent(in), optional :: v", "real(kind=dp)"),
     ("character(len=10) :: v", "character(len=10)"), ("character(10) :: v", "character(len=10)"), ("character*10 v", "character(len=10)"),
+    ("character(10, 1) :: v", "character(kind=1, len=10)"), ("character(n, 4) :: v", "character(kind=4, len=n)"), ("character(10, kind=1) :: v", "character(kind=1, len=10)"),
     ("character(len=*), parameter :: v = 'x'", "character(len=*), parameter"), ("character(kind=ck, len=5) :: v", "character(kind=ck, len=5)"),
     ("type(t) :: v", "type(t)"), ("TYPE(T) :: V", "type(T)"), ("class(t), pointer :: v", "class(t), pointer"),
     ("real, dimension(3), allocatable :: v", "real, dimension(3), allocatable"), ("real :: v(3)", "real, (3)"),
